@@ -160,6 +160,7 @@ def make_list(rng, nP, sharing, d, incomplete=False, clash=False):
     pool_n = [gens.rand_herm(rng, d, traceless=bool(rng.integers(0, 2))) for _ in range(3)]
     sens = rng.uniform(0.3, 1.5, 3)
     descs = []
+    nclash = bool(clash and rng.random() < 0.5)
     for p in range(nP):
         n_dt = int(rng.integers(1, 4))
         kc = sorted(rng.choice(3, int(rng.integers(1, 4)), replace=False).tolist())
@@ -182,9 +183,17 @@ def make_list(rng, nP, sharing, d, incomplete=False, clash=False):
         ncoef = np.array([np.full(n_dt, sens[k]) for k in kn])
         if sharing == 'shared':
             ncoef = ncoef*rng.uniform(0.5, 1.5, (len(kn), n_dt))
+        n_ops_l = [pool_n[k] for k in kn]
+        n_ids_l = [f'N{k}' for k in kn]
+        if nclash:
+            # noise identifier clash whose resolution changes the sort order: one operator shared
+            # by all pulses is called 'a0', a pulse-specific operator is called 'a' in every pulse
+            n_ops_l = [pool_n[0], gens.rand_herm(rng, d, traceless=True)]
+            n_ids_l = ['a0', 'a']
+            ncoef = np.array([np.full(n_dt, sens[0]), np.full(n_dt, 0.8)])
         descs.append(dict(d=d, c_opers=np.array(c_ops), c_ids=c_ids,
                           c_coeffs=rng.standard_normal((len(c_ops), n_dt)),
-                          n_opers=np.array([pool_n[k] for k in kn]), n_ids=[f'N{k}' for k in kn],
+                          n_opers=np.array(n_ops_l), n_ids=n_ids_l,
                           n_coeffs=ncoef, dt=rng.uniform(0.2, 1.5, n_dt), basis=basis,
                           features=[sharing] + (['incomplete'] if incomplete else [])
                           + (['clash'] if clash else [])))
@@ -227,7 +236,27 @@ def rows_by_operator(p, ref_ops):
     return [next(j for j, q in enumerate(p.n_opers) if np.allclose(q, o)) for o in ref_ops]
 
 
-CACHE_STATES = ['nothing', 'diag', 'cm_same', 'cm_other', 'ff_same']
+CACHE_STATES = ['nothing', 'diag', 'cm_same', 'cm_other', 'ff_same', 'pc_same', 'pc_other']
+
+
+def build_input(desc, state, om, om2):
+    """an input pulse in the given cache state; 'pc_*': the input is itself a concatenation of its
+    two halves computed with pulse-correlation filter functions on the same / another grid"""
+    n = len(desc['dt'])
+    if state.startswith('pc_') and n >= 2:
+        k = n//2
+        halves = []
+        for sl in (slice(0, k), slice(k, n)):
+            h = dict(desc)
+            h['c_coeffs'] = np.asarray(desc['c_coeffs'])[:, sl]
+            h['n_coeffs'] = np.asarray(desc['n_coeffs'])[:, sl]
+            h['dt'] = np.asarray(desc['dt'])[sl]
+            halves.append(gens.build(h))
+        return ff.concatenate(halves, calc_pulse_correlation_FF=True,
+                              omega=om if state == 'pc_same' else om2)
+    p = gens.build(desc)
+    prepare(p, state, om, om2)
+    return p
 
 
 def prepare(p, state, om, om2):
@@ -245,9 +274,7 @@ def check_concat(ctx, case):
     descs, states = case['descs'], case['states']
     om, om2 = np.asarray(case['omega'], dtype=float), np.asarray(case['omega2'], dtype=float)
     opt = case['options']
-    ps = [gens.build(d) for d in descs]
-    for p, s in zip(ps, states):
-        prepare(p, s, om, om2)
+    ps = [build_input(d, s, om, om2) for d, s in zip(descs, states)]
     kw = {}
     if opt['calc_ff'] is not None:
         kw['calc_filter_function'] = opt['calc_ff']
@@ -259,14 +286,14 @@ def check_concat(ctx, case):
     key = (tuple(tuple(d['features']) for d in descs), tuple(states), tuple(sorted(opt.items())),
            om.tobytes(), len(descs))
     ctx.count(key, nontrivial=len(descs) >= 2)
-    same_grid = [s in ('cm_same', 'ff_same') for s in states]
-    other_grid = [s == 'cm_other' for s in states]
+    cached_om = [np.asarray(p.omega) for p in ps if p.omega is not None]
+    feats['pc'] = bool(opt['pc'] or any(p.is_cached('control_matrix_pc') for p in ps))
     try:
         c = ff.concatenate(ps, **kw)
     except ValueError as e:
         # documented: forced calculation / pulse correlations without known frequencies
-        unknown = not opt['omega_given'] and (not any(same_grid + other_grid)
-                                              or (any(same_grid) and any(other_grid)))
+        unknown = not opt['omega_given'] and (
+            len(cached_om) == 0 or any(not np.array_equal(cached_om[0], w) for w in cached_om[1:]))
         if (opt['calc_ff'] or opt['pc']) and unknown:
             return
         ctx.fail('concat_succeeds', case, 'ValueError: ' + str(e), 'a pulse', feats,
